@@ -26,6 +26,12 @@ def make_law(p):
         return H.CiarletGeymonat(p["dim"], K1=p["K1"], K2=p["K2"], K=p["K"], thickness=p["thickness"])
     if k == "SaintVenantKirchhoff":
         return H.SaintVenantKirchhoff(p["dim"], lmbda=p["lmbda"], mu=p["mu"], thickness=p["thickness"])
+    if k == "HolzapfelOgden":
+        a = p["angle"]
+        T1 = np.array([np.cos(a), np.sin(a), 0.0])
+        T2 = np.array([-np.sin(a), np.cos(a), 0.0])
+        return H.HolzapfelOgden(p["dim"], C0=p["C"][0], C1=p["C"][1], C2=p["C"][2], C3=p["C"][3], C4=p["C"][4], C5=p["C"][5], C6=p["C"][6], C7=p["C"][7],
+                                K=p["K"], Mu1=p["Mu1"], Mu2=p["Mu2"], T1=T1, T2=T2, ks=p["ks"], thickness=p["thickness"])
     raise KeyError(k)
 
 
@@ -42,9 +48,16 @@ class HyperWorld(World):
     def gen_config(cls, rng, tier, faults):
         three = tier == "thorough" and rng.random() < 0.15
         dim = 3 if three else 2
-        law = ["NeoHookean", "MooneyRivlin", "CiarletGeymonat", "SaintVenantKirchhoff"][int(rng.integers(4))]
+        law = ["NeoHookean", "MooneyRivlin", "CiarletGeymonat", "SaintVenantKirchhoff", "HolzapfelOgden"][int(rng.integers(5))]
         p = {"law": law, "dim": dim, "thickness": float(np.round(rng.uniform(0.5, 2), 3))}
-        if law == "NeoHookean":
+        if law == "HolzapfelOgden":
+            # fibre-reinforced law with every term switched on (isotropic exponential, two fibre families, coupling,
+            # volumetric and the two Mu terms)
+            p.update(C=[float(np.round(rng.uniform(2, 10), 2)), float(np.round(rng.uniform(1, 4), 2)), float(np.round(rng.uniform(5, 40), 2)), float(np.round(rng.uniform(1, 5), 2)),
+                        float(np.round(rng.uniform(5, 40), 2)), float(np.round(rng.uniform(1, 5), 2)), float(np.round(rng.uniform(1, 10), 2)), float(np.round(rng.uniform(1, 5), 2))],
+                     K=float(np.round(rng.uniform(50, 300), 2)), Mu1=float(np.round(rng.uniform(5, 50), 2)), Mu2=float(np.round(rng.uniform(5, 50), 2)),
+                     ks=float(np.round(rng.uniform(20, 100), 1)), angle=float(np.round(rng.uniform(0, np.pi), 3)))
+        elif law == "NeoHookean":
             p["K"] = float(np.round(rng.uniform(20, 200), 2))
         elif law in ("MooneyRivlin", "CiarletGeymonat"):
             p.update(K1=float(np.round(rng.uniform(20, 100), 2)), K2=float(np.round(rng.uniform(5, 50), 2)), K=float(np.round(rng.uniform(50, 300), 2)))
@@ -77,6 +90,14 @@ class HyperWorld(World):
             self.sim.rho = cfg["rho"]
             self.pt = self.sim.problemType
             self.un = list(self.sim.Get_unknowns())
+            # two boundary entities without a common node (faces of a 3D mesh may share an edge, and a node entered
+            # in two Dirichlet conditions holds the sum of the entries)
+            sets = [set(np.asarray(self.sim.mesh.Nodes_Tags(t)).tolist()) for t in self.tags]
+        pair = next(((i, j) for i in range(len(sets)) for j in range(i + 1, len(sets)) if sets[i] and sets[j] and not (sets[i] & sets[j])), None)
+        if pair is None:
+            self.close()
+            raise Discard("no two disjoint boundary entities on this mesh")
+        self.tagA, self.tagB = self.tags[pair[0]], self.tags[pair[1]]
         self.dt = cfg["dt"]
         self.M = None
         self.E0 = None
@@ -104,14 +125,14 @@ class HyperWorld(World):
         with self.ctx.sut():
             sim.Bc_Init()
             if self.cfg["clamped"]:
-                sim.add_dirichlet(sim.mesh.Nodes_Tags(self.tags[0]), [0.0] * len(self.un), self.un)
+                sim.add_dirichlet(sim.mesh.Nodes_Tags(self.tagA), [0.0] * len(self.un), self.un)
 
     def _reference_state_checks(self):
         """W = 0 and zero internal force in the reference configuration (the state every run starts from)."""
         sim, ctx = self.sim, self.ctx
         with ctx.sut():
             W = float(sim._Calc_W())
-            sim.add_dirichlet(sim.mesh.Nodes_Tags(self.tags[0]), [0.0] * len(self.un), self.un)
+            sim.add_dirichlet(sim.mesh.Nodes_Tags(self.tagA), [0.0] * len(self.un), self.un)
             sim.Solve()  # static, zero load: Newton must accept u = 0 at once
             K, _, _, F = sim.Get_K_C_M_F(self.pt)
             u = sim.displacement
@@ -149,8 +170,8 @@ class HyperWorld(World):
             try:
                 with ctx.sut():
                     sim.Bc_Init()
-                    sim.add_dirichlet(sim.mesh.Nodes_Tags(self.tags[0]), [0.0] * len(self.un), self.un)
-                    sim.add_dirichlet(sim.mesh.Nodes_Tags(self.tags[2]), [cfg["preload"]], [self.un[-1]])
+                    sim.add_dirichlet(sim.mesh.Nodes_Tags(self.tagA), [0.0] * len(self.un), self.un)
+                    sim.add_dirichlet(sim.mesh.Nodes_Tags(self.tagB), [cfg["preload"]], [self.un[-1]])
                     sim.Solve()
             except SutError as e:
                 if simlib.is_nonconvergence(e.exc):
